@@ -99,4 +99,10 @@ CHECKS = {
           'Oracle: callback exactly once with the right code, user buffer with red zones exact, bus frames exact (announced size, toggles, last-segment flag, n field), abort frame 0504 0000h on time-out, busy client refuses, timer pool occupancy restored. csdo_step: arbitrary BUSY download context with 32-bit symbolic Size (5..600) and Buf_Idx: next segment width min(7, Size-Buf_Idx), c-bit iff last, bytes from the right offset.',
   'note': 'e2e sizes enumerated, <= 4 segments; sizes up to 600 through the inductive segment step; one client; block transfer is not implemented by the client',
  },
+ 'C20': {
+  'text': 'reset_equiv: on one real node (heartbeat producer, two heartbeat consumers, SYNC consumer/producer, EMCY, one TPDO with event/inhibit timers, SDO server, SDO client, LSS, application timer; real timer, pool 6) run a history H, then NMT reset communication, then probes P; then zero the node, put the post-H dictionary values back, CONodeInit + CONodeStart, and run the same probes. '
+          '21 histories (write 1017h, SYNC producer on, SYNC id change, TPDO event/inhibit timers armed, consumer configured/armed, open segmented download, open block upload, busy SDO client, LSS configuration state, EMCY set, application timer, NMT start/stop, a combined one) x 10 probe sequences (ticks, SDO uploads and stray segments, SYNC and old-id frames, NMT start + TPDO trigger, heartbeat + event count, LSS inquiry, client request + server answer, EMCY state) with symbolic heartbeat state, payloads and mapped value. '
+          'Oracle: per probe step the multiset of frames (identifier, dlc, data), all callback counts, API results and NMT mode are equal in both runs; exactly one boot-up; RAM communication parameters unchanged by the reset; application timer keeps its schedule; timer pool occupancy = fresh + live application timers.',
+  'note': 'only observable behaviour is compared, never internal state; frames of one step as a multiset (order of actions due on one tick is free); the error history 1003h is dictionary content and not compared; times concrete (2 ms), kinds concrete; reset node variant and API resets in the thorough tier',
+ },
 }
